@@ -5,7 +5,7 @@ from assemble import Item
 NAME = 'streamdef'
 PRELUDE = ['base', 'bigint', 'float', 'rational', 'opaque']
 SPECS = ['seqlib.rs', 'index.rs', 'streamdef.rs']
-DEPS = ['nint', 'nnum', 'coretypes', 'index']
+DEPS = ['nint', 'nnum', 'coretypes', 'objctors', 'index']
 NEEDS_EXPANDED = True
 
 C = 'src/core.rs'
